@@ -7,6 +7,9 @@ from .interp import Inconclusive, PathEnd
 from . import tables as T
 
 
+STREAM_END = ('stream-end',)
+
+
 def register(M):
     reg = M.reg
 
@@ -187,6 +190,8 @@ def register_streams(M):
     reg = M.reg
     import z3 as _z3
 
+    M.STREAM_END = STREAM_END
+
     def pstream(items):
         """items: list of (pending_polls, value)"""
         return Obj('pstream', items=tuple(items), polls=0)
@@ -211,6 +216,10 @@ def register_streams(M):
         if k > 0:
             ex.write_path(cell, path, s.set(items=((k - 1, v),) + s.items[1:]))
             return M.poll_pending(dty)
+        if v is STREAM_END:
+            # an explicitly late end of the stream
+            ex.write_path(cell, path, s.set(items=()))
+            return M.poll_ready(dty, M.none('Option<?>'))
         ex.write_path(cell, path, s.set(items=s.items[1:]))
         return M.poll_ready(dty, M.some('Option<?>', v))
     M.poll_stream = poll_stream
